@@ -158,6 +158,17 @@ Qed.
 (** the required fuel for a value of depth at most [d] under [stack] *)
 Definition need (d : nat) (stack : list stack_key) : nat := (d + (length keys - length stack) * (D + 1))%nat.
 
+Lemma look_default rec n stack target args L :
+  get_value_at vals L target = Some NDefault -> str_eqb L dflt = false ->
+  look rec (S n) stack target args L = look rec n stack target args (walk vals dflt inherits (S (length inherits)) [L] L target).
+Proof. intros E1 E2. cbn [Foreign.look]. rewrite E1, E2. reflexivity. Qed.
+
+Lemma need_push K s D' d f : (S s <= K)%nat -> (1 <= d)%nat -> (d + (K - s) * (D' + 1) <= S f)%nat ->
+  (D' + (K - S s) * (D' + 1) <= f)%nat.
+Proof.
+  intros H1 H2 H3. replace (K - s)%nat with (S (K - S s)) in H3 by lia. rewrite Nat.mul_succ_l in H3. lia.
+Qed.
+
 Theorem resolve_no_oof : forall fuel stack L v d,
   stack_ok stack -> (pv_depth v <= d)%nat -> (need d stack <= fuel)%nat -> no_oof (resolve fuel stack L v).
 Proof.
@@ -192,20 +203,23 @@ Proof.
                by (destruct Hs' as [Hn Hi]; apply (NoDup_incl_length Hn Hi)).
         all: apply bind_no_oof;
                [apply (IH _ L' T D Hs'); [eapply depth_bound; exact Eg | unfold need in *; cbn [length] in *;
-                  replace (length keys - length stack)%nat with (S (length keys - S (length stack))) in Hf by lia;
-                  rewrite Nat.mul_succ_l in Hf; lia]
+                  apply (need_push (length keys) (length stack) D d f); [exact Hlen | lia | exact Hf]]
                | intros T' _; apply bind_no_oof; [apply (Hargs stack Hs eq_refl) | intros; discriminate]]. }
       (* the lookup of [resolve]: at most one restart *)
-      cbn [Foreign.look]. destruct (get_value_at vals L (ns, p)) as [[T| |sub]|] eqn:Eg.
-      * specialize (Hat L). rewrite Eg in Hat. specialize (Hat (fun nd E => or_introl ltac:(inversion E; discriminate)) 2%nat).
-        cbn [Foreign.look] in Hat. rewrite Eg in Hat. exact Hat.
-      * destruct (str_eqb L dflt); [discriminate|].
+      assert (Hcase : (forall nd, get_value_at vals L (ns, p) = Some nd -> nd <> NDefault \/ str_eqb L dflt = true)
+                      \/ (get_value_at vals L (ns, p) = Some NDefault /\ str_eqb L dflt = false)).
+      { destruct (get_value_at vals L (ns, p)) as [[T| |sub]|].
+        - left. intros nd E. left. inversion E. discriminate.
+        - destruct (str_eqb L dflt) eqn:Ed; [left; intros nd E; right; reflexivity | right; split; reflexivity].
+        - left. intros nd E. left. inversion E. discriminate.
+        - left. intros nd E. discriminate. }
+      destruct Hcase as [Hc|[Eg Ed]].
+      * apply Hat. exact Hc.
+      * rewrite (look_default (resolve f) 1 stack (ns, p) args L Eg Ed).
         apply Hat. intros nd End.
         destruct (walk_spec vals dflt inherits (ns, p) (S (length inherits)) [L] L) as [Hw|(nd' & Hn & Hne)].
         -- right. rewrite Hw. apply str_eqb_refl.
         -- left. rewrite End in Hn. inversion Hn; subst. exact Hne.
-      * apply bind_no_oof; [apply (Hargs stack Hs eq_refl) | intros; discriminate].
-      * discriminate.
 Qed.
 End Resolve.
 
@@ -281,3 +295,39 @@ Proof.
   destruct (resolve vals dflt inherits 200 [(L, (ns, path))] L v) as [r| | | |] eqn:E; cbn [bind]; try discriminate; [|congruence].
   destruct (resolve_then_reduce _ _ _ _ _ _ _ _ E) as (r' & Er & _). rewrite Er. discriminate.
 Qed.
+
+(** * [look] restarts at most once: with the two rounds [resolve] gives it, it never runs out of rounds *)
+Theorem look_no_oof vals dflt inherits (rec : list (str * keypath) -> str -> pv -> res pv) stack target args L :
+  (forall st l v, rec st l v <> OutOfFuel) ->
+  look vals dflt inherits rec 2 stack target args L <> OutOfFuel.
+Proof.
+  intros Hrec.
+  assert (Hargs : forall st L', no_oof (resolve_args rec st L' args)).
+  { intros st L'. apply resolve_args_no_oof. intros k a _. apply Hrec. }
+  assert (Hat : forall L', (forall nd, get_value_at vals L' target = Some nd -> nd <> NDefault \/ str_eqb L' dflt = true) ->
+                forall n, no_oof (look vals dflt inherits rec n stack target args L')).
+  { intros L' Hnd n. destruct n as [|n]; cbn [Foreign.look];
+      destruct (get_value_at vals L' target) as [[T| |sub]|] eqn:Eg; try discriminate.
+    all: try (destruct (Hnd _ eq_refl) as [Hx|Hx]; [congruence | rewrite Hx; discriminate]).
+    all: try (apply bind_no_oof; [apply Hargs | intros; discriminate]).
+    all: destruct (on_stack L' target stack); [discriminate|].
+    all: apply bind_no_oof; [apply Hrec | intros T' _; apply bind_no_oof; [apply Hargs | intros; discriminate]]. }
+  assert (Hcase : (forall nd, get_value_at vals L target = Some nd -> nd <> NDefault \/ str_eqb L dflt = true)
+                  \/ (get_value_at vals L target = Some NDefault /\ str_eqb L dflt = false)).
+  { destruct (get_value_at vals L target) as [[T| |sub]|].
+    - left. intros nd E. left. inversion E. discriminate.
+    - destruct (str_eqb L dflt) eqn:Ed; [left; intros nd E; right; reflexivity | right; split; reflexivity].
+    - left. intros nd E. left. inversion E. discriminate.
+    - left. intros nd E. discriminate. }
+  destruct Hcase as [Hc|[Eg Ed]].
+  - apply Hat. exact Hc.
+  - rewrite (look_default vals dflt inherits rec 1 stack target args L Eg Ed).
+    apply Hat. intros nd End.
+    destruct (walk_spec vals dflt inherits target (S (length inherits)) [L] L) as [Hw|(nd' & Hn & Hne)].
+    + right. rewrite Hw. apply str_eqb_refl.
+    + left. rewrite End in Hn. inversion Hn; subst. exact Hne.
+Qed.
+
+Lemma project_keys_depth vals L t T : get_value_at vals L t = Some (NVal T) ->
+  In (L, t) (map leaf_key (value_leaves vals)) /\ (pv_depth T <= value_depth vals)%nat.
+Proof. intros H. exact (conj (project_keys_complete vals L t T H) (project_depth_bound vals L t T H)). Qed.
